@@ -3,7 +3,9 @@
 Pipeline (spec = oracle, nothing is judged in Python or C++):
   1. build harness/access_harness.cpp ("bsaccess", non-PIE, full RELRO) from the working tree of the repo;
   2. `bsaccess record`: raw access events (page-protection tracer + interposed __cxa_guard_*) of every catalogue
-     operation, first call (cold) and second call (warm), each operation in a fresh process;
+     operation, first call (cold) and second call (warm), each operation in a fresh process; heap blocks that were
+     allocated (operator new) by code of the executable in one traced call and are still alive in the next one are
+     traced as well (state that outlives an operation, e.g. a static pointer to a scratch buffer);
   3. glue (this file): addresses -> symbols (`nm -C`), documented trust filter, events -> access summaries in the
      vocabulary of spec/Threads.tla (r / w / gc, guard blocks);
   4. TLC on MC_Threads: ALL interleavings of the summaries for T threads x K operations per thread chosen from the
@@ -22,7 +24,7 @@ Trust filter (what is NOT a shared location of the library; everything else in t
   * objects of libc / libstdc++ that live in the executable because of COPY relocations (stdout, vtables, ...);
   * the tracer's own pages (never protected);
   libc / libstdc++ / libgcc keep their state in their own writable segments, which are not traced at all; thread-local
-  storage, stack and heap are outside the traced segments by construction.
+  storage, the stack, malloc'ed memory and heap blocks that die with their operation are outside the traced memory.
 """
 import bisect
 import json
@@ -186,6 +188,7 @@ class Summaries:
         self.guards = {}         # guard name -> list of accesses (block)
         self.ops = []            # {"name", "acc", "raw": counts}
         self.notes = []
+        self._heapnames = {}
         # section tables of the other traced modules (libpugixml): GOT slots are loader-managed, not library state
         self.modsec = {}
         for sg in seg["segments"]:
@@ -205,6 +208,10 @@ class Summaries:
 
     def _loc(self, a):
         """Returns (short name, is_guard_variable) or None when the address is trusted."""
+        if a.startswith("heap:"):
+            name = self._heapnames.get(int(a[5:].split("+")[0]), "heap block " + a[5:].split("+")[0])
+            self.locinfo.setdefault(name, {"symbol": name + " (heap block that outlives an operation)", "writers": set()})
+            return name, False
         if a.startswith("exe:"):
             addr = int(a[4:], 16)
             if self.tracer[0] <= addr < self.tracer[1]:
@@ -247,6 +254,14 @@ class Summaries:
     # -- one recorded call ------------------------------------------------------------------
     def _one(self, r):
         name = "%s.%s" % (r["op"], r["phase"])
+        # heap blocks that were allocated by code of the executable in an earlier traced call and are still alive: named by
+        # their allocation site, so that the same block has the same name in every operation's summary
+        self._heapnames = {}
+        persite = {}
+        for h in sorted(r.get("heap", []), key=lambda h: h["id"]):
+            site = self._ipname(h["site"])
+            persite[site] = persite.get(site, 0) + 1
+            self._heapnames[h["id"]] = "heap block #%d allocated in %s" % (persite[site], site)
         # frames: (guard name or None, list of accesses)
         stack = [(None, [])]
         raw = {"r": 0, "w": 0, "guard_events": 0, "trusted": 0}
@@ -306,7 +321,7 @@ class Summaries:
     @staticmethod
     def _canon(acc):
         """Canonical form of a synchronisation-free segment: the distinct (kind, location) pairs in first-occurrence
-        order, a Write subsuming the Reads of the same location.  Sound and complete for happens-before race detection:
+        order; a location both read and written in the segment is one Update (kind u), a Write subsumes nothing else.  Sound and complete for happens-before race detection:
         between two guard events a thread neither acquires nor releases, so all accesses of the segment have the same
         happens-before relation to every access of another thread.  Guard checks delimit segments; a repeated check of a
         guard that is already known to be done within the same operation is kept only once per segment."""
@@ -315,12 +330,13 @@ class Summaries:
 
         def flush():
             written = {a["l"] for a in seg if a["k"] == "w"}
+            read = {a["l"] for a in seg if a["k"] == "r"}
             seen = set()
             for a in seg:
                 if a["l"] in seen:
                     continue
                 seen.add(a["l"])
-                out.append({"k": "w" if a["l"] in written else "r", "l": a["l"]})
+                out.append({"k": ("u" if a["l"] in read else "w") if a["l"] in written else "r", "l": a["l"]})
             del seg[:]
         checked = set()
         for a in acc:
@@ -421,10 +437,12 @@ def decode_trace(cex, rows):
                 top = a["stack"][t][-1]
                 opname = a["prog"][t][a["slot"][t] - 1]
                 seq = ops[opname] if top["g"] == "" else blocks.get(top["g"], [])
+                kind, loc = "", ""
                 if top["i"] > len(seq):
                     what = "end of operation" if top["g"] == "" else "GuardRelease(%s)" % top["g"]
                 else:
                     acc = seq[top["i"] - 1]
+                    kind, loc = acc["k"], acc["l"]
                     if acc["k"] == "gc":
                         st = a["guard"][acc["l"]]["st"]
                         what = ("GuardCheck(%s): initialised, synchronises" if st == "done" else "GuardAcquire(%s): runs the initialiser") % acc["l"]
@@ -434,7 +452,7 @@ def decode_trace(cex, rows):
                         what = "InitWrite(%s, %s)" % (top["g"], acc["l"])
                     else:
                         what = ("Write(%s)" if acc["k"] == "w" else "Update(%s)") % acc["l"]
-                steps.append({"thread": t + 1, "op": opname, "slot": a["slot"][t], "in": top["g"], "i": top["i"], "step": what})
+                steps.append({"thread": t + 1, "op": opname, "slot": a["slot"][t], "in": top["g"], "i": top["i"], "k": kind, "l": loc, "step": what})
     last = states[-1]
     return {"programs": last["prog"], "interleaving": steps, "race": last["race"], "diverged": last["diverged"]}
 
@@ -442,9 +460,9 @@ def decode_trace(cex, rows):
 def first_access_of_race(trace):
     """The earlier access of the racy pair: last access of thread u to the location, of the kind named by the race."""
     race = trace["race"]
-    want = ("Write(", "Update(", "InitWrite(") if race["firstk"] == "w" else ("Read(", "Update(")
+    want = ("w", "u") if race["firstk"] == "w" else ("r", "u")
     for s in reversed(trace["interleaving"][:-1]):
-        if s["thread"] == race["u"] and s["step"].startswith(want) and s["step"].rstrip(")").endswith(race["loc"]):
+        if s["thread"] == race["u"] and s["k"] in want and s["l"] == race["loc"]:
             return s
     return None
 
@@ -456,6 +474,12 @@ def leg_selftest(chk, S):
     """Vacuity guard: the same model, the recorded summaries plus ONE synthetic defect.  An unguarded Write added to a
     warmed-up operation MUST come back as a NoRace counterexample (TLC exit 12) on exactly that location; the same write
     placed inside the initialiser of a guard (InitWrite) MUST be accepted."""
+    # (0) the static synthetic summary shipped with the spec
+    rows0 = vlib.read_ndjson(os.path.join(vlib.SPEC, "Threads_selftest.ndjson"))
+    r0, viol0 = run_model("selftest: spec/Threads_selftest.ndjson (must be found)", rows0, 2, False, chk, timeout=600, workers=2, xmx="1g")
+    if viol0 is None or viol0["invariant"] != "InvNoRace" or viol0["trace"]["race"]["loc"] != "scratch_buffer":
+        raise MachineryError("self-test failed: no NoRace counterexample for spec/Threads_selftest.ndjson (exit %d)" % r0.rc)
+    # (1), (2) the recorded summaries plus one synthetic access
     cl = S.classes()
     ng = lambda c: sum(1 for a in c["acc"] if a["k"] == "gc")
     withg = [c for c in cl if ng(c)]
@@ -492,7 +516,7 @@ def describe(S, viol):
         second = tr["interleaving"][-1]
         first = first_access_of_race(tr)
         info = S.locinfo.get(race["loc"], {})
-        what = "data race on static storage %s: thread %d %s in %s is not ordered by happens-before with thread %d %s in %s" % (
+        what = "data race on shared location %s: thread %d %s in %s is not ordered by happens-before with thread %d %s in %s" % (
             race["loc"], race["t"], second["step"], second["op"], race["u"], first["step"] if first else ("last %s" % race["firstk"]),
             first["op"] if first else "?")
         if info.get("writers"):
@@ -696,7 +720,8 @@ def run_check(tier):
                        "distinct = operation classes with distinct canonical summaries)")
     chk.assumptions += [
         "shared locations = objects in the writable segments of the harness executable (library code is compiled into it) and of "
-        "libpugixml; libc / libstdc++ / libgcc internals, the dynamic loader (GOT), thread-local storage, stack and heap are trusted / not traced",
+        "libpugixml, plus operator-new blocks allocated by that code which outlive an operation; libc / libstdc++ / libgcc internals, the dynamic "
+        "loader (GOT), thread-local storage, the stack, malloc'ed memory (RapidJSON / pugixml DOM) and short-lived heap blocks are trusted / not traced",
         "operations = the C19 catalogue of harness/access_harness.cpp; an access summary is the one recorded on x86-64 Linux, g++ -O1, for the catalogue inputs",
         "a synchronisation-free segment is represented by its distinct (kind, location) pairs (exact for happens-before race detection); "
         "in the larger configurations runs of reads of locations that no summary writes are one step (Fuse)",
